@@ -43,7 +43,7 @@ func checkC01(c *Ctx, r *Report) {
 	// the entry a reduction pushes carries the left-hand side from the moment the case stores it until PushStateSym
 	// copies it; the user's action runs in between and may start a nested parse (PushContex … Parser … PopContex)
 	// whose reductions go through the same ReduceFunc: the entry must be storage of this reduction alone (C07.b)
-	includeSome(r, "C01.e", func(sub *Report) { checkC07(c, sub) }, "fresh-$$-entry")
+	includeSome(r, "C01.e", func(sub *Report) { checkC07(c, sub) }, "fresh-$$-entry", "$$-only-the-action-fills-it")
 }
 
 func c01a(c *Ctx, r *Report, st *Staged) {
